@@ -298,6 +298,8 @@ class CFG:
         self.by_ast = {}   # id(ast stmt/expr) -> [Node]
         self.flags = {}    # flag name -> its test nodes
         self.flag_defs = {}   # flag name -> the expression it was bound to
+        self.flag_bind = {}   # flag name -> the node that binds it
+        self.flag_in_loop = set()
 
     def mark_flags(self):
         """A local that is bound exactly once (outside loops) and tested bare in two or more places is a *flag*: `stopping = self.running … if stopping: … if stopping:`.
@@ -313,12 +315,15 @@ class CFG:
         bound_once = set()
         defs = {}
         for n in self.nodes:
-            if n.kind == 'stmt' and isinstance(n.ast, ast.Assign) and len(n.ast.targets) == 1 and isinstance(n.ast.targets[0], ast.Name) \
-                    and not any(k == 'loop' for k, _a in n.ctx):
+            if n.kind == 'stmt' and isinstance(n.ast, ast.Assign) and len(n.ast.targets) == 1 and isinstance(n.ast.targets[0], ast.Name):
                 nm = n.ast.targets[0].id
                 if stores.get(nm) == 1 and nm not in params:
                     bound_once.add(nm)
                     defs[nm] = n.ast.value
+                    self.flag_bind[nm] = n
+                    if any(k == 'loop' for k, _a in n.ctx):
+                        # (bound anew in every iteration: what was decided is forgotten at the binding, see query._search_flags)
+                        self.flag_in_loop.add(nm)
         tests = {}
         for n in self.nodes:
             n.cfg = self
